@@ -166,6 +166,14 @@ fn check(rel: Rel, exact: bool) -> impl Fn(&Case) -> Verdict + Send + Sync {
                 exempted += 1;
                 continue;
             }
+            // LaguerreRSI, TrendFlex and ReFlex report a quotient of quantities that decay geometrically while the input is flat
+            // (findings #19, #26). The exact scalar rounds to 320 significant bits once its rationals outgrow 512 bits: after a
+            // long flat run those residues lie below that precision and the two runs' quotients are rounding noise of the
+            // *harness*. Such steps are exempt when (and only when) the exact scalar did round in this case.
+            if exact && matches!(en.name, "LaguerreRSI" | "TrendFlex" | "ReFlex") && t >= 8 && h[t - 8..t].iter().all(|x| x == &h[t]) && crate::q::arena_rounded() > 0 {
+                exempted += 1;
+                continue;
+            }
             match (&o1[t], &o2[t]) {
                 (None, None) => {}
                 (Some(u), Some(v)) => {
